@@ -77,3 +77,10 @@ plan("C13", "exploration",
      lambda tier: [S("C13", 30000 if tier == "quick" else 1000000)],
      assumptions=["reference: carry-less multiply mod 0x11D", "direct kernels are not called below their documented minimum length",
                   "gf_vect_mul: len multiple of 32 and 32-byte aligned buffers as documented"])
+
+plan("C08", "exploration",
+     "Generated: xor_gen_{base,sse,avx,avx512}, pq_gen_{base,sse,avx,avx2,avx512}, xor_check_{base,sse}, pq_check_{base,sse} and the four dispatchers under 12 cpu levels; "
+     "vects from the minimum to 257, len small multiples / every residue 0..1100 / up to 40000 (rounded to the documented multiple), documented alignment only "
+     "(incl. 32-but-not-64), guard-paged blocks. Checks: every single-byte corruption of every block when vects*len <= 1600, 24 sampled otherwise. Non-trivial: len>=32, vects>min.",
+     lambda tier: [S("C08", 40000 if tier == "quick" else 1500000)],
+     assumptions=["reference P/Q from carry-less GF(2^8)/0x11D arithmetic", "only the vects minimum is asserted for argument rejection (length-multiple handling differs by variant and is not claimed)"])
